@@ -54,9 +54,9 @@ def jsonable(x, depth=0):
                 return {"ndarray": jsonable(x.tolist(), depth + 1), "dtype": str(x.dtype)}
             return {"ndarray": "shape=%s dtype=%s sha1=%s" % (x.shape, x.dtype, hashlib.sha1(np.ascontiguousarray(x).tobytes()).hexdigest()[:10])}
     if isinstance(x, dict):
-        return {str(k): jsonable(v, depth + 1) for k, v in list(x.items())[:64]}
+        return {str(k): jsonable(v, depth + 1) for k, v in list(x.items())[:1024]}
     if isinstance(x, (list, tuple, set, frozenset)):
-        return [jsonable(v, depth + 1) for v in list(x)[:64]]
+        return [jsonable(v, depth + 1) for v in list(x)[:256]]
     return repr(x)[:300]
 
 
